@@ -167,7 +167,7 @@ func runAPIFaultCase(c *Ctx, ac apiCase, tape *simrt.Tape) (vs []apiViolation, e
 				if k == "" {
 					continue
 				}
-				v, e := db.GetBytes([]byte(k))
+				v, e := getB(db, []byte(k))
 				evals++
 				Beat()
 				want, ok := model[k]
@@ -195,7 +195,7 @@ func runAPIFaultCase(c *Ctx, ac apiCase, tape *simrt.Tape) (vs []apiViolation, e
 				if i%2 == 0 {
 					e = db.Put(k, v)
 				} else {
-					e = db.PutBytes([]byte(k), []byte(v))
+					e = putB(db, []byte(k), []byte(v))
 				}
 				if e == nil {
 					model[k] = v
@@ -205,7 +205,7 @@ func runAPIFaultCase(c *Ctx, ac apiCase, tape *simrt.Tape) (vs []apiViolation, e
 				if i%2 == 0 {
 					e = db.Delete(k)
 				} else {
-					e = db.DeleteBytes([]byte(k))
+					e = delB(db, []byte(k))
 				}
 				if e == nil {
 					delete(model, k)
@@ -309,7 +309,7 @@ func runAPICase(c *Ctx, ac apiCase, tape *simrt.Tape, count bool) (vs []apiViola
 		}
 		sweep := func(when string) bool {
 			for _, k := range apiKeys {
-				vB, eB := dbB.GetBytes(bytesArg(k, false))
+				vB, eB := getB(dbB, bytesArg(k, false))
 				vS, eS := dbS.Get(k)
 				evals++
 				Beat()
@@ -338,7 +338,7 @@ func runAPICase(c *Ctx, ac apiCase, tape *simrt.Tape, count bool) (vs []apiViola
 				v := apiValue(op.Val, i)
 				desc += fmt.Sprintf(", value=%q nil=%v)", head([]byte(v)), op.Nil)
 				eS := dbS.Put(k, v)
-				eB := dbB.PutBytes(bytesArg(k, op.Nil), bytesArg(v, op.Nil))
+				eB := putB(dbB, bytesArg(k, op.Nil), bytesArg(v, op.Nil))
 				evals++
 				Beat()
 				if (eS == nil) != (eB == nil) {
@@ -364,7 +364,7 @@ func runAPICase(c *Ctx, ac apiCase, tape *simrt.Tape, count bool) (vs []apiViola
 			case "del":
 				desc += fmt.Sprintf(" nil=%v)", op.Nil)
 				eS := dbS.Delete(k)
-				eB := dbB.DeleteBytes(bytesArg(k, op.Nil))
+				eB := delB(dbB, bytesArg(k, op.Nil))
 				evals++
 				Beat()
 				if (eS == nil) != (eB == nil) {
@@ -384,7 +384,7 @@ func runAPICase(c *Ctx, ac apiCase, tape *simrt.Tape, count bool) (vs []apiViola
 				}
 			case "get":
 				vS, eS := dbS.Get(k)
-				vB, eB := dbB.GetBytes(bytesArg(k, op.Nil))
+				vB, eB := getB(dbB, bytesArg(k, op.Nil))
 				evals++
 				Beat()
 				if errClass(eS) != errClass(eB) || !bytes.Equal([]byte(vS), vB) {
@@ -398,7 +398,7 @@ func runAPICase(c *Ctx, ac apiCase, tape *simrt.Tape, count bool) (vs []apiViola
 				misuse := func(hS, hB *simpledb.DB, state string) bool {
 					v := apiValue(1, i)
 					desc := fmt.Sprintf("op %d on a %s handle: ", i, state)
-					eS, eB := hS.Put(k, v), hB.PutBytes([]byte(k), []byte(v))
+					eS, eB := hS.Put(k, v), putB(hB, []byte(k), []byte(v))
 					evals++
 					Beat()
 					if (eS == nil) != (eB == nil) {
@@ -410,7 +410,7 @@ func runAPICase(c *Ctx, ac apiCase, tape *simrt.Tape, count bool) (vs []apiViola
 					} else {
 						snaps = append(snaps, snap{w.Seq(), cloneMap(model), desc + "PutBytes"})
 					}
-					eS, eB = hS.Delete(apiKeys[1]), hB.DeleteBytes([]byte(apiKeys[1]))
+					eS, eB = hS.Delete(apiKeys[1]), delB(hB, []byte(apiKeys[1]))
 					evals++
 					Beat()
 					if (eS == nil) != (eB == nil) {
@@ -423,7 +423,7 @@ func runAPICase(c *Ctx, ac apiCase, tape *simrt.Tape, count bool) (vs []apiViola
 						snaps = append(snaps, snap{w.Seq(), cloneMap(model), desc + "DeleteBytes"})
 					}
 					vS, eS := hS.Get(k)
-					vB, eB := hB.GetBytes([]byte(k))
+					vB, eB := getB(hB, []byte(k))
 					evals++
 					Beat()
 					if errClass(eS) != errClass(eB) || !bytes.Equal([]byte(vS), vB) {
@@ -671,4 +671,38 @@ func apisimReplay(c *Ctx, rf *ReplayFile) []Violation {
 		out = append(out, Violation{Property: rf.Property, Sig: v.sig, Detail: v.detail})
 	}
 	return out
+}
+
+
+// The byte flavour is always called the way a caller with a reusable buffer would call it: the slices handed in are
+// overwritten as soon as the call has returned, and a returned slice is copied and then overwritten too. The database
+// must have taken what it needs by then (the string flavour cannot share memory with its caller at all).
+func scribble(b []byte) {
+	for i := range b {
+		b[i] = 0xEE
+	}
+}
+
+func putB(db *simpledb.DB, k, v []byte) error {
+	e := db.PutBytes(k, v)
+	scribble(k)
+	scribble(v)
+	return e
+}
+
+func delB(db *simpledb.DB, k []byte) error {
+	e := db.DeleteBytes(k)
+	scribble(k)
+	return e
+}
+
+func getB(db *simpledb.DB, k []byte) ([]byte, error) {
+	v, e := db.GetBytes(k)
+	scribble(k)
+	var out []byte
+	if v != nil {
+		out = append([]byte{}, v...)
+	}
+	scribble(v)
+	return out, e
 }
